@@ -24,7 +24,7 @@ SPEC("pane.converters", "UnionConverter.into_data",
                        lambda j: acc(sat(self.converters, j), val)
                        and forall(range(j), lambda k: not acc(sat(self.converters, k), val))
                        and result == ser(sat(self.converters, j), val)))
-               or (forall(range(slen(self.converters)), lambda j: not acc(sat(self.converters, j), val))), ["C11", "C05"], "ser")],
+               or (forall(range(slen(self.converters)), lambda j: not acc(sat(self.converters, j), val))), ["C11", "C05", "C06"], "ser")],
      invariants={0: lambda it, self, val: forall(range(it), lambda j: not acc(sat(self.converters, j), val))})
 
 # ---------------------------------------------------------------------------------------------
@@ -54,11 +54,11 @@ SPEC("pane.converters", "DictConverter.into_data",
      shapes={"val": "map", "self.k_conv": "conv", "self.v_conv": "conv"},
      assumes=[lambda self, val: forall_val(lambda k: implies(mhas(val, k), hashable(dict_key_ser(self, k))))],
      note="assumed: serialised keys are hashable (interchange scalars)",
-     ensures=[(lambda self, val, result: forall_val(lambda k: implies(mhas(val, k), mhas(result, dict_key_ser(self, k)))), ["C05", "C18"], "ser-keys"),
+     ensures=[(lambda self, val, result: forall_val(lambda k: implies(mhas(val, k), mhas(result, dict_key_ser(self, k)))), ["C05", "C06", "C18"], "ser-keys"),
               (lambda self, val, result: forall_val(lambda k2: implies(mhas(result, k2),
                                                                       exists_key(val, lambda k: dict_key_ser(self, k) == k2
                                                                                  and mget(result, k2) == dict_val_ser(self, mget(val, k))))),
-               ["C05", "C18"], "ser-values")])
+               ["C05", "C06", "C18"], "ser-values")])
 
 # ---------------------------------------------------------------------------------------------
 # StructConverter.into_data
@@ -76,9 +76,9 @@ def is_any_type(ty):
 SPEC("pane.converters", "StructConverter.into_data",
      shapes={"val": "map", "self.fields": "map", "self.field_converters": "map"},
      requires=lambda self, val: is_data_map(val),
-     ensures=[(lambda self, val, result: forall_val(lambda k: mhas(result, k) == mhas(val, k)), ["C05"], "ser-keys"),
+     ensures=[(lambda self, val, result: forall_val(lambda k: mhas(result, k) == mhas(val, k)), ["C05", "C06"], "ser-keys"),
               (lambda self, val, result: forall_val(lambda k: implies(mhas(val, k), mget(result, k) == struct_elem_ser(self, k, mget(val, k)))),
-               ["C05", "C18"], "ser-values")],
+               ["C05", "C06", "C18"], "ser-values")],
      invariants={0: lambda it, d, self, val:
                  forall_val(lambda k: mhas(d, k) == (mhas(val, k) and idx_of(val, k) < it))
                  and forall_val(lambda k: implies(mhas(d, k), mget(d, k) == struct_elem_ser(self, k, mget(val, k))))})
@@ -94,4 +94,4 @@ SPEC("pane.converters", "PatternConverter.into_data",
 
 SPEC("pane.converters", "DelegateConverter.into_data",
      shapes={"self.inner": "conv"},
-     ensures=[(lambda self, val, result: result == ser(self.inner, val), ["C05"], "ser")])
+     ensures=[(lambda self, val, result: result == ser(self.inner, val), ["C05", "C06"], "ser")])
